@@ -160,7 +160,10 @@ def enc(op):
     if n == "ToeplitzLinearOperator":
         return f"P {r} {vec(b0(op.column.expand(*op.shape[:-1]), nb))}"
     if n in ("RootLinearOperator", "LowRankRootLinearOperator", "CholLinearOperator"):
-        return {"RootLinearOperator": "R", "LowRankRootLinearOperator": "L", "CholLinearOperator": "H"}[n] + " " + sub(op.root)
+        tag = {"RootLinearOperator": "R", "LowRankRootLinearOperator": "L", "CholLinearOperator": "H"}[n]
+        if n == "CholLinearOperator" and getattr(op, "upper", False):
+            tag = "HU"
+        return tag + " " + sub(op.root)
     if n in ("KroneckerProductLinearOperator", "KroneckerProductTriangularLinearOperator", "KroneckerProductDiagLinearOperator") \
             and len(op.linear_ops) == 2:
         tag = {"KroneckerProductLinearOperator": "K", "KroneckerProductTriangularLinearOperator": "KT",
@@ -338,6 +341,13 @@ DIAGLIKE = ("Diag", "ConstantDiag", "Identity", "KroneckerDiag")
 def build_insts(rng, dtype, batch, n, thorough):
     its = C.instances(rng, dtype, batch, n, depth=2 if thorough else 1)
     its += C.instances(rng, dtype, batch, 2 * n, classes=SMALL6)
+    try:   # upper-orientation Cholesky operator (opt-in entry of the catalogue; it is positive definite)
+        ex = C.instances(rng, dtype, batch, n, classes=["Chol[upper]"], extra=True)
+        for it in ex:
+            it.psd = True
+        its += ex
+    except TypeError:
+        pass
     res = []
     for it in its:
         if "f32only" in it.tags and dtype != torch.float32:
@@ -381,6 +391,21 @@ def pair_ops(a, b):
 
 PYOP = {"add": lambda x, y: x + y, "sub": lambda x, y: x - y, "mul": lambda x, y: x * y, "matmul": lambda x, y: x @ y}
 SYM = {"add": "+", "sub": "-", "mul": "*m", "matmul": "@"}
+
+
+SUM_FAMILY = ("SumKronecker", "PsdSum", "AddedDiag", "KroneckerAddedDiag[diag]", "KroneckerAddedDiag[const]", "LowRankRootAddedDiag",
+              "Sum[toeplitz+diag]", "Sum")
+
+
+def closed_forms(R, chk, cell, desc, res, dense, payload):
+    """A result class with wrong closed forms is a value bug even if to_dense agrees: logdet / solve of a PSD sum."""
+    n = dense.shape[-1]
+    rhs = torch.arange(1, 2 * n + 1, dtype=dense.dtype).reshape(n, 2) / n
+    for nm, fi, fs in (("logdet", lambda o: o.logdet(), lambda d: torch.logdet(d)),
+                       ("solve", lambda o: o.solve(rhs.clone()), lambda d: torch.linalg.solve(d, rhs.expand(*d.shape[:-2], n, 2)))):
+        chk.count("op:closed-" + nm)
+        R.record(f"{cell}/{nm}", f"{nm}({desc})", lambda fi=fi: fi(res), lambda fs=fs: fs(dense), dict(payload, closed=nm), exact=False,
+                 opkind=nm)
 
 
 def pair_line(op, A, B):
@@ -445,7 +470,9 @@ def run_pairs(R, chk, thorough):
                         line = None
                     if (not thorough and kind != "same2") or (thorough and kind in ("one3", "bc")):
                         line = None   # the dispatch does not depend on batch shapes: model lines for a subset of the kinds
-                    R.record(cell, desc, impl, spec, payload, exact=exact, model=line)
+                    res = R.record(cell, desc, impl, spec, payload, exact=exact, model=line)
+                    if op == "add" and res is not None and is_op(res) and a.psd and b.psd and a.name.split("(")[0] in SUM_FAMILY:
+                        closed_forms(R, chk, cell, desc, res, spec(), payload)
 
 
 SCALARS = [("py2", 2.0), ("py0.5", 0.5), ("pyneg", -3.0), ("py0", 0.0), ("py4", 4.0), ("t0d4", "t4"), ("t0dneg", "t-1"),
@@ -571,6 +598,41 @@ def unary_cases(it, batch, rng, dtype):
             new = cross @ cross.mT + 30 * torch.eye(2, dtype=dtype)
             cases.append(("cat_rows", lambda o: o.cat_rows(cross.clone(), new.clone()),
                           lambda d: torch.cat([torch.cat([d, cross.mT], -1), torch.cat([cross, new], -1)], -2), None))
+            if dtype == torch.float64:
+                # two-step programs: root-based operations on the results of cat_rows / add_low_rank (they read the roots these
+                # methods cache); cross terms of ordinary magnitude, Schur complement = identity
+                from linear_operator.operators import RootLinearOperator
+                bsh = tuple(it.shape[:-2])
+                cr = C.ri(rng, (*bsh, 2, n), -2, 2, dtype)
+                nw = cr @ torch.linalg.solve(D, cr.mT) + torch.eye(2, dtype=dtype)
+                nw = (nw + nw.mT) / 2
+                blk = lambda d, c=cr, w=nw: torch.cat([torch.cat([d, c.mT], -1), torch.cat([c, w], -1)], -2)
+                Rk = C.ri(rng, (*bsh, n + 2, 2), -2, 2, dtype)
+                Rn = C.ri(rng, (*bsh, n, 2), -2, 2, dtype)
+                lr2 = C.ri(rng, (*bsh, n + 2, 1), -2, 2, dtype)
+                cr3 = C.ri(rng, (*bsh, 1, n + 2), -1, 1, dtype)
+                nw3 = lambda m: cr3 @ torch.linalg.solve(m, cr3.mT) + torch.eye(1, dtype=dtype)
+                blk3 = lambda m: torch.cat([torch.cat([m, cr3.mT], -1), torch.cat([cr3, nw3(m)], -1)], -2)
+                crl = C.ri(rng, (*bsh, 1, n), -1, 1, dtype)
+                nwl = lambda m: crl @ torch.linalg.solve(m, crl.mT) + torch.eye(1, dtype=dtype)
+                blkl = lambda m: torch.cat([torch.cat([m, crl.mT], -1), torch.cat([crl, nwl(m)], -1)], -2)
+                step1 = {"cat_rows": (lambda o: o.cat_rows(cr.clone(), nw.clone()), blk, Rk, lr2),
+                         "add_low_rank": (lambda o: o.add_low_rank(lr.clone()), lambda d: d + lr @ lr.mT, Rn, lr[..., :1])}
+                for s1, (f1_, d1_, rk, l2) in step1.items():
+                    cases.append((f"{s1}-ord", f1_, d1_, None))
+                    cases.append((f"{s1}>mulroot", lambda o, f1_=f1_, rk=rk: f1_(o) * RootLinearOperator(rk.clone()),
+                                  lambda d, d1_=d1_, rk=rk: d1_(d) * (rk @ rk.mT), None))
+                    cases.append((f"{s1}>add_low_rank", lambda o, f1_=f1_, l2=l2: f1_(o).add_low_rank(l2.clone()),
+                                  lambda d, d1_=d1_, l2=l2: d1_(d) + l2 @ l2.mT, None))
+                    if s1 == "cat_rows":
+                        cases.append((f"{s1}>cat_rows", lambda o, f1_=f1_: (lambda r: r.cat_rows(cr3.clone(), nw3(blk(D)).clone()))(f1_(o)),
+                                      lambda d, d1_=d1_: blk3(d1_(d)), None))
+                    else:
+                        cases.append((f"{s1}>cat_rows", lambda o, f1_=f1_: (lambda r: r.cat_rows(crl.clone(), nwl(D + lr @ lr.mT).clone()))(f1_(o)),
+                                      lambda d, d1_=d1_: blkl(d1_(d)), None))
+                    for dim in range(len(bsh)):
+                        cases.append((f"{s1}>prod{dim}", lambda o, f1_=f1_, dim=dim: f1_(o).prod(dim),
+                                      lambda d, d1_=d1_, dim=dim: d1_(d).prod(dim), None))
     return cases
 
 
@@ -597,7 +659,7 @@ def run_unary(R, chk, thorough):
                         except Exception:
                             line = None
                     exact = it.exact or not name.startswith(("sum-", "sumall"))
-                    if name.startswith(("prod", "add_low_rank", "cat_rows")):
+                    if name.startswith(("prod", "add_low_rank", "cat_rows")) or ">" in name:
                         exact = False
                     R.record(cell, desc, lambda it=it, fi=fi: fi(it.build()), lambda it=it, fs=fs: fs(it.dense),
                              {"part": "unary", "inst": it.name, "batch": list(batch), "case": name, "dtype": str(dtype)}, exact=exact, model=line)
@@ -724,6 +786,80 @@ def run_batch3(R, chk, thorough):
                          opkind=name.replace("unsq-", "unsqueeze-"))
 
 
+
+# ----------------------------------------------------------------------------------------------- operand re-use
+def reuse_steps(it):
+    """Read-only uses of ONE operator object, in sequence: (name, impl(o), spec(d))."""
+    nb = len(it.shape) - 2
+    r, c = it.shape[-2:]
+    dt = it.dense.dtype
+    T = torch.arange(r * c, dtype=dt).reshape(r, c) % 5 - 2
+    Cm = torch.arange(c * 2, dtype=dt).reshape(c, 2) % 3 - 1
+    steps = [("mT", lambda o: o.mT, lambda d: d.mT),
+             ("mT@self", lambda o: o.mT @ o, lambda d: d.mT @ d),
+             ("self@mT", lambda o: o @ o.mT, lambda d: d @ d.mT),
+             ("add-tensor", lambda o: o + T.clone(), lambda d: d + T),
+             ("matmul-tensor", lambda o: o @ Cm.clone(), lambda d: d @ Cm),
+             ("mul2", lambda o: o * 2.0, lambda d: d * 2.0),
+             ("transpose-2-1", lambda o: o.transpose(-2, -1), lambda d: d.transpose(-2, -1)),
+             ("add-self", lambda o: o + o, lambda d: d + d),
+             ("unsqueeze0", lambda o: o.unsqueeze(0), lambda d: d.unsqueeze(0)),
+             ("expand-new", lambda o: o.expand(2, *it.shape), lambda d: d.expand(2, *it.shape)),
+             ("sum-1", lambda o: o.sum(-1), lambda d: d.sum(-1)),
+             ("mT-again", lambda o: o.mT, lambda d: d.mT)]
+    if nb >= 1:
+        steps.insert(6, ("sum0", lambda o: o.sum(0), lambda d: d.sum(0)))
+    if nb >= 2:
+        steps.insert(2, ("transpose01", lambda o: o.transpose(0, 1), lambda d: d.transpose(0, 1)))
+        steps.insert(3, ("permute10", lambda o: o.permute(1, 0, nb, nb + 1), lambda d: d.permute(1, 0, nb, nb + 1)))
+        steps.append(("sum1-after", lambda o: o.sum(1), lambda d: d.sum(1)))
+    if r == c:
+        steps.append(("add_jitter", lambda o: o.add_jitter(0.5), lambda d: d + 0.5 * torch.eye(r, dtype=dt)))
+        steps.append(("sub-self-mT", lambda o: o - o.mT, lambda d: d - d.mT))
+    return steps
+
+
+def run_reuse(R, chk, thorough):
+    """One operator OBJECT used by a sequence of read-only operations: every result is compared with dense torch and after
+    every step the operand must still have its shape and value (an operation that edits its operand breaks later uses)."""
+    import random
+    from linear_operator.operators import DenseLinearOperator, ZeroLinearOperator
+    rng = random.Random(f"{PID}:reuse:{chk.seed}")
+    for dtype in ((torch.float64,) if not thorough else (torch.float64, torch.float32)):
+        for batch in ((), (2,), (2, 3)):
+            its = build_insts(rng, dtype, batch, 3, thorough)
+            its = [it for it in its if not (it.shape[-1] > 4 and it.name in SMALL6)]
+            its.append(CustomInst("Zero[rect]", lambda batch=batch, dtype=dtype: (ZeroLinearOperator(*batch, 3, 4, dtype=dtype),
+                                                                                  torch.zeros(*batch, 3, 4, dtype=dtype))))
+            Rt = C.ri(rng, (*batch, 4, 2), dtype=dtype)
+            its.append(CustomInst("Dense[tall]", lambda Rt=Rt: (DenseLinearOperator(Rt.clone()), Rt)))
+            for it in its:
+                try:
+                    o = it.build()
+                except Exception:
+                    continue
+                for name, fi, fs in reuse_steps(it):
+                    cell = f"C02/reuse/{name}/{it.cname}/b={len(batch)}/{str(dtype)[6:]}"
+                    desc = f"reuse {name}({it.name}{list(batch)}) {dtype}"
+                    chk.count("op:reuse-" + name)
+                    payload = {"part": "reuse", "inst": it.name, "batch": list(batch), "step": name, "dtype": str(dtype)}
+                    exact = it.exact and "@" not in name and not name.startswith(("sum-", "matmul"))
+                    R.record(cell, desc, lambda fi=fi: fi(o), lambda fs=fs: fs(it.dense), payload, exact=exact, opkind=name)
+                    bad = None
+                    try:
+                        if tuple(o.shape) != tuple(it.shape):
+                            bad = f"operand shape {tuple(it.shape)} -> {tuple(o.shape)}"
+                        else:
+                            got = o.to_dense()
+                            if tuple(got.shape) != tuple(it.dense.shape) or not torch.allclose(got, it.dense.to(got.dtype), atol=1e-4):
+                                bad = "operand value changed"
+                    except Exception as e:
+                        bad = f"operand unusable: {type(e).__name__}: {str(e)[:80]}"
+                    if bad:
+                        chk.violation(f"{cell}/operand-changed", f"{desc}: after the step the operand itself changed: {bad}", payload)
+                        break
+
+
 # ----------------------------------------------------------------------------------------------- programs
 PROG_LEAVES = ["Dense", "Dense[psd]", "Diag", "Diag[signed]", "ConstantDiag", "Identity", "Zero", "Toeplitz", "Triangular[lower]",
                "Triangular[upper]", "Root", "LowRankRoot", "Chol[lower]", "AddedDiag", "LowRankRootAddedDiag", "Sum", "PsdSum",
@@ -760,20 +896,41 @@ class Unsupported(Exception):
     pass
 
 
-def eval_prog(p, leaves, n, dtype, batch):
-    """-> (impl result, dense result, model line or None, psd-ish flag).  Raises Unsupported when a step is outside the grammar."""
+class OperandChanged(Exception):
+    pass
+
+
+def check_leaves(cache, leaves):
+    """After a program: every leaf object (used possibly several times) still has its shape and value."""
+    for idx, obj in cache.items():
+        it = leaves[idx]
+        if tuple(obj.shape) != tuple(it.shape):
+            raise OperandChanged(f"leaf {it.name} changed shape {tuple(it.shape)} -> {tuple(obj.shape)}")
+        got = type(obj)(*obj._args, **obj._kwargs).to_dense() if False else obj.to_dense()
+        if got.shape != it.dense.shape or not torch.allclose(got, it.dense.to(got.dtype), atol=1e-4):
+            raise OperandChanged(f"leaf {it.name} changed value")
+
+
+def eval_prog(p, leaves, n, dtype, batch, cache=None):
+    """-> (impl result, dense result, model line or None, psd-ish flag).  Raises Unsupported when a step is outside the grammar.
+    With `cache` the SAME leaf object is used for every occurrence of a leaf (programs are DAGs)."""
     k = p[0]
     if k == "leaf":
         it = leaves[p[1]]
-        A = it.build()
+        if cache is not None:
+            if p[1] not in cache:
+                cache[p[1]] = it.build()
+            A = cache[p[1]]
+        else:
+            A = it.build()
         try:
             e = "leaf " + enc(A)
         except NotEncodable:
             e = None
         return A, it.dense, e, it.psd
     if k in ("add", "sub", "matmul", "mulm"):
-        A, da, ea, pa = eval_prog(p[1], leaves, n, dtype, batch)
-        B, db, eb, pb = eval_prog(p[2], leaves, n, dtype, batch)
+        A, da, ea, pa = eval_prog(p[1], leaves, n, dtype, batch, cache)
+        B, db, eb, pb = eval_prog(p[2], leaves, n, dtype, batch, cache)
         roots = {"RootLinearOperator", "LowRankRootLinearOperator", "CholLinearOperator"}
         if k in ("add", "sub") and is_op(B) and type(B).__name__ in roots and not pa:
             raise Unsupported("adding a root to a non-PSD operator")
@@ -792,20 +949,20 @@ def eval_prog(p, leaves, n, dtype, batch):
         return res, dres, e, (pa and pb and k in ("add", "mulm"))
     if k == "mulc":
         _, c, how, q = p
-        A, da, ea, pa = eval_prog(q, leaves, n, dtype, batch)
+        A, da, ea, pa = eval_prog(q, leaves, n, dtype, batch, cache)
         obj = c if how == "py" else torch.tensor(c, dtype=dtype)
         if is_op(A) and has_rootish(A) and c > 0 and c not in (1.0, 4.0, 9.0, 0.25):
             ea = None
         return A * obj, da * c, (f"*c {how} {fmt_rat(c)} {ea}" if ea else None), pa and c > 0
     if k == "divc":
         _, c, q = p
-        A, da, ea, pa = eval_prog(q, leaves, n, dtype, batch)
+        A, da, ea, pa = eval_prog(q, leaves, n, dtype, batch, cache)
         if is_op(A) and has_rootish(A):
             ea = None
         return A / c, da / c, (f"/c {fmt_rat(c)} {ea}" if ea else None), pa and c > 0
     if k == "adddiag":
         _, shape, vals, q = p
-        A, da, ea, pa = eval_prog(q, leaves, n, dtype, batch)
+        A, da, ea, pa = eval_prog(q, leaves, n, dtype, batch, cache)
         if not is_op(A):
             raise Unsupported("add_diagonal on a tensor")
         if shape == "f":
@@ -818,16 +975,16 @@ def eval_prog(p, leaves, n, dtype, batch):
         return A.add_diagonal(d.clone()), da + vals[0] * torch.eye(n, dtype=dtype), (f"ad s {vals[0]} {ea}" if ea else None), pa
     if k == "jitter":
         _, c, q = p
-        A, da, ea, pa = eval_prog(q, leaves, n, dtype, batch)
+        A, da, ea, pa = eval_prog(q, leaves, n, dtype, batch, cache)
         if not is_op(A):
             raise Unsupported("add_jitter on a tensor")
         return A.add_jitter(c), da + c * torch.eye(n, dtype=dtype), (f"jit {fmt_rat(c)} {ea}" if ea else None), pa
     if k == "tr":
-        A, da, ea, pa = eval_prog(p[1], leaves, n, dtype, batch)
+        A, da, ea, pa = eval_prog(p[1], leaves, n, dtype, batch, cache)
         return A.mT, da.mT, (f"tr {ea}" if ea else None), pa
     if k in ("tensor+", "tensor@"):
         _, vals, q = p
-        A, da, ea, pa = eval_prog(q, leaves, n, dtype, batch)
+        A, da, ea, pa = eval_prog(q, leaves, n, dtype, batch, cache)
         t = torch.tensor(vals[:n * n], dtype=dtype).reshape(n, n)
         if k == "tensor+":
             return A + t.clone(), da + t, (f"+ {ea} leaf D {n} {n} {mat(t)}" if ea and False else None), False
@@ -852,6 +1009,8 @@ def run_programs(R, chk, thorough, progs=None):
     for batch, dtype, pseed, d in todo:
         prng = random.Random(pseed)
         leaves = [it for it in C.instances(prng, dtype, tuple(batch), n, depth=1, classes=PROG_LEAVES) if it.shape[-2:] == (n, n)]
+        pool = prng.sample(range(len(leaves)), min(3, len(leaves)))   # few leaves: operands are re-used (DAG)
+        leaves = [leaves[i] for i in pool]
         p = gen_prog(prng, leaves, d)
         desc = f"prog {prog_str(p, leaves)} batch={list(batch)} {dtype}"
         ops = sorted(set(re.findall(r"\((\w+[+@]?)", prog_str(p, leaves))))
@@ -859,8 +1018,11 @@ def run_programs(R, chk, thorough, progs=None):
         holder = {}
 
         def impl():
-            r, dd, line, _ = eval_prog(p, leaves, n, dtype, tuple(batch))
+            cache = {}
+            r, dd, line, _ = eval_prog(p, leaves, n, dtype, tuple(batch), cache)
             holder["line"], holder["dense"] = line, dd
+            dense_of(r)
+            check_leaves(cache, leaves)
             return r
         try:
             _, want, line, _ = eval_prog(p, leaves, n, dtype, tuple(batch))
@@ -923,7 +1085,7 @@ def run(chk):
                 "either side) x {+,-,elementwise *,@} x batch-shape pairs {same, none, left/right unbatched, 1 vs 3, (2,1) vs (3,)} "
                 "(quick: `same` for every pair plus one seed-rotated other kind); (2) every instance x scalar kind x {*, r*, /}; "
                 "(3) every instance x unary rewrite (transpose, repeat, expand, unsqueeze/squeeze, permute, sum/prod over batch and "
-                "matrix dims, add_diagonal x3 shapes, add_jitter, add_low_rank, cat_rows, cat); (3b) every instance with THREE batch dims of different sizes (plus Cat along each batch dim with unequal pieces) x every batch permutation in S3 (positive / negative dims, applied twice), transpose of every batch pair, unsqueeze/squeeze/expand at every position, repeat/sum/prod over each batch dim; (4) seed-random expression programs "
+                "matrix dims, add_diagonal x3 shapes, add_jitter, add_low_rank, cat_rows, cat); (3b) every instance with THREE batch dims of different sizes (plus Cat along each batch dim with unequal pieces) x every batch permutation in S3 (positive / negative dims, applied twice), transpose of every batch pair, unsqueeze/squeeze/expand at every position, repeat/sum/prod over each batch dim; (3c) one operator OBJECT used by a sequence of read-only operations, operand checked after each; (4) seed-random expression programs "
                 "of depth <= 3 (quick) / 5 (thorough).  distinct = distinct (cell description); non-trivial = dense result has more "
                 "than one entry and is not all zero.  Each case: implementation vs dense torch expression (value, shape, dtype), and "
                 "for modelled classes implementation vs Lean model (class tree exact, values exact on the first batch element).")
@@ -934,8 +1096,8 @@ def run(chk):
     chk.prove("LinOp.Properties.C02", ["LinOp/C02", "LinOp/Generated/C02Table.lean", "LinOp/Core/Parse.lean", "LinOp/Core/Basic.lean",
                                        "LinOp/Core/Bridge.lean"])
     R = Runner(chk)
-    parts = os.environ.get("C02_PARTS", "pairs,scalars,unary,batch3,programs").split(",")
-    for name, fn in (("pairs", run_pairs), ("scalars", run_scalars), ("unary", run_unary), ("batch3", run_batch3), ("programs", run_programs)):
+    parts = os.environ.get("C02_PARTS", "pairs,scalars,unary,batch3,reuse,programs").split(",")
+    for name, fn in (("pairs", run_pairs), ("scalars", run_scalars), ("unary", run_unary), ("batch3", run_batch3), ("reuse", run_reuse), ("programs", run_programs)):
         t = time.time()
         if name in parts:
             fn(R, chk, thorough)
@@ -962,6 +1124,8 @@ def replay(chk, payload):
     part = pl["part"]
     if part == "batch3":
         run_batch3(R, chk, thorough)
+    elif part == "reuse":
+        run_reuse(R, chk, thorough)
     elif part == "prog":
         run_programs(R, chk, thorough, progs=[(tuple(pl["batch"]), eval(pl["dtype"]), pl["pseed"], pl["depth"])])
     else:
